@@ -294,6 +294,10 @@ func runC20(col *Collector, tier string, seed int64) {
 		selectViaConfigCase(col, tree, inc, exc)
 	}
 	eventFilterCases(col)
+	stressRounds := map[bool]int{false: 250, true: 2500}[tier == "thorough"]
+	eventBindingStressCase(col, 4, stressRounds, false)
+	eventBindingStressCase(col, 8, stressRounds/2, false)
+	eventBindingStressCase(col, 4, stressRounds, true)
 	if os.Getenv("VERIF_SKIP_INOTIFY") == "" {
 		watchRunCases(col, tier, rng)
 	}
